@@ -2,6 +2,7 @@ package props
 
 import (
 	"go/ast"
+	"go/token"
 	"go/types"
 	"sort"
 	"strings"
@@ -410,6 +411,42 @@ func timestampInRange(r *core.Run) {
 					}
 					return true
 				})
+				// `err = ts.CheckValid()` directly followed by `if err != nil { return …, err }`
+				ast.Inspect(fd.Body, func(x ast.Node) bool {
+					blk, isBlk := x.(*ast.BlockStmt)
+					if !isBlk {
+						return true
+					}
+					for i, st := range blk.List {
+						asg, isAs := st.(*ast.AssignStmt)
+						if !isAs || len(asg.Lhs) != 1 || len(asg.Rhs) != 1 || i+1 >= len(blk.List) {
+							continue
+						}
+						c, isCall := core.Unparen(asg.Rhs[0]).(*ast.CallExpr)
+						if !isCall {
+							continue
+						}
+						sel, isSel := c.Fun.(*ast.SelectorExpr)
+						if !isSel || (sel.Sel.Name != "CheckValid" && sel.Sel.Name != "IsValid") {
+							continue
+						}
+						if rid, isID := core.Unparen(sel.X).(*ast.Ident); !isID || info.ObjectOf(rid) != obj {
+							continue
+						}
+						nx, isIf := blk.List[i+1].(*ast.IfStmt)
+						if !isIf || len(nx.Body.List) == 0 {
+							continue
+						}
+						b, isBin := core.Unparen(nx.Cond).(*ast.BinaryExpr)
+						if !isBin || b.Op != token.NEQ || core.ExprStr(b.X) != core.ExprStr(asg.Lhs[0]) || !core.IsNilIdent(info, b.Y) {
+							continue
+						}
+						if rs, isRet := nx.Body.List[len(nx.Body.List)-1].(*ast.ReturnStmt); isRet && len(rs.Results) > 0 && !core.IsNilIdent(info, rs.Results[len(rs.Results)-1]) {
+							ok = true
+						}
+					}
+					return true
+				})
 			}
 			if ok {
 				o.Auto("CheckValid is consulted and its error returned")
@@ -454,6 +491,19 @@ func documentEnds(r *core.Run) {
 		o := r.Add("R-ERR/E4e", codecRel+"."+core.FuncName(fd)+" | nothing follows the document", mk.Pos(), "end of the document")
 		eof := false
 		var bypass *ast.ReturnStmt
+		core.InspectTree(pk, fd.Body, func(x ast.Node) bool {
+			if is, ok := x.(*ast.IfStmt); ok {
+				ast.Inspect(is.Cond, func(m ast.Node) bool {
+					if s, ok := m.(*ast.SelectorExpr); ok && s.Sel.Name == "EOF" {
+						if o := info.ObjectOf(s.Sel); o != nil && o.Pkg() != nil && o.Pkg().Path() == "io" {
+							eof = true
+						}
+					}
+					return true
+				})
+			}
+			return true
+		})
 		ast.Inspect(fd.Body, func(x ast.Node) bool {
 			switch y := x.(type) {
 			case *ast.IfStmt:
